@@ -86,6 +86,46 @@ def run(ctx: Ctx) -> None:
                         what=f"evaluation context can stay set after {unparse(s, 40)}")
     rep.floor("C10.R1", n_sets, 2)
 
+    # ---- R5: a function resets only the context it has set ------------------------------------------------------
+    rep.rule("C10.R5", "every context RESET is dominated by the completion of a context SET of the same function (or by the outcome 'no context is set'): "
+                       "a refusal raised before the SET must not wipe the context of the evaluation that is still running")
+    n5 = 0
+    for f in prog.module("dds._api").funcs.values():
+        sets, resets = ctx_assignments(ctx, f, gname)
+        if not resets:
+            continue
+        cfg = cfg_of(f)
+        doms: List[Node] = [d for s_ in sets for d in done_nodes(cfg, s_)]
+        for b in cfg.nodes:
+            if b.kind != "branch" or b.ast is None:
+                continue
+            t = b.ast
+            if isinstance(t, ast.Name) and t.id == gname and b.label == "F":
+                doms.append(b)  # `if _eval_ctx:` false / `if not _eval_ctx:` true
+            elif isinstance(t, ast.Compare) and isinstance(t.left, ast.Name) and t.left.id == gname and len(t.ops) == 1 \
+                    and isinstance(t.comparators[0], ast.Constant) and t.comparators[0].value is None:
+                if (isinstance(t.ops[0], ast.Is) and b.label == "T") or (isinstance(t.ops[0], ast.IsNot) and b.label == "F"):
+                    doms.append(b)
+        for a_ in f.own_nodes():
+            if isinstance(a_, ast.Assert):
+                t = a_.test
+                none_test = (isinstance(t, ast.Compare) and isinstance(t.left, ast.Name) and t.left.id == gname and len(t.ops) == 1 and isinstance(t.ops[0], ast.Is)
+                             and isinstance(t.comparators[0], ast.Constant) and t.comparators[0].value is None) or (
+                    isinstance(t, ast.UnaryOp) and isinstance(t.op, ast.Not) and isinstance(t.operand, ast.Name) and t.operand.id == gname)
+                if none_test:
+                    doms += done_nodes(cfg, a_)  # `assert _eval_ctx is None` completed: nothing to lose
+        for r in resets:
+            n5 += 1
+            desc = f"`{unparse(r, 40)}` only drops a context that this function has set"
+            w = dominated(ctx, f, r, doms)
+            if w is None:
+                rep.ok("C10.R5", f.qname, desc, f.loc(r))
+            else:
+                rep.bad("C10.R5", f.qname, desc, f.loc(r), ["path that reaches the reset without having set the context (an outer evaluation's context is dropped; "
+                        "its own clean-up then fails and replaces the user's exception, and later keeps run as top-level evaluations that commit their paths):"] + w,
+                        stmt_key(r), what="the context of a running evaluation can be reset by a call that never set it")
+    rep.floor("C10.R5", n5, 1)
+
     # ---- R2 / R3 ----------------------------------------------------------------------------
     n_store = 0
     for f in (top, nested):
